@@ -11,6 +11,7 @@ SOURCES = {"hta/common/trace_call_graph.py": ["_build_call_stacks", "_connect_st
                                               "_add_kernel_info_to_cpu_ops", "_save_call_stack_to_df", "_construct_call_stack_graph"],
            "hta/common/trace.py": ["get_cpu_gpu_correlation"]}
 TRANSLATE = [translate.gen_cmp]
+INPUT_CONTRACT = True        # the loaded frame is re-checked against the file (framework.input_contract)
 N_CASES = {"quick": 250, "thorough": 4000}
 RULE = ("generated well-formed file sets loaded through the public entry point (epoch offsets, so timestamps are shifted): 1-3 host threads, launch calls at several "
         "depths with and without device partner, orphan kernels, profiler steps, '## backward ##' annotations, an autograd thread in a third of the cases; no "
